@@ -6,6 +6,7 @@ import copy
 import dataclasses
 import datetime
 import json
+import re
 import sys
 import types
 import uuid as _uuid
@@ -119,8 +120,19 @@ def encode_input(method, inp):
         return yaml.safe_dump(inp)
     if method in ("from_toml", "decode_toml"):
         import tomli_w
-        return tomli_w.dumps(inp)
+        doc = _strip_none(inp)
+        if not isinstance(doc, dict):
+            doc = {} if doc is None else {"x": doc}
+        return tomli_w.dumps(doc)
     raise ValueError(method)
+
+
+def _strip_none(doc):
+    if isinstance(doc, dict):
+        return {k: _strip_none(v) for k, v in doc.items() if v is not None}
+    if isinstance(doc, list):
+        return [_strip_none(v) for v in doc if v is not None]
+    return doc
 
 
 # --------------------------------------------------------------------------
@@ -128,6 +140,8 @@ def encode_input(method, inp):
 # --------------------------------------------------------------------------
 
 _MISSING = object()
+_MODNAME = re.compile(r"vfam_\d+")
+_MODNAME_B = re.compile(rb"vfam_\d+")
 
 
 def canon(x, _depth=0):
@@ -136,12 +150,14 @@ def canon(x, _depth=0):
     t = type(x)
     if x is None:
         return ["n"]
-    if t in (bool, int, str):
+    if t is str:
+        return ["str", _MODNAME.sub("M", x)]
+    if t in (bool, int):
         return [t.__name__, x]
     if t is float:
         return ["float", repr(x)]
     if t in (bytes, bytearray):
-        return [t.__name__, bytes(x).hex()]
+        return [t.__name__, _MODNAME_B.sub(b"M", bytes(x)).hex()]
     if isinstance(x, datetime.date):
         return [t.__name__, x.isoformat()]
     if dataclasses.is_dataclass(x) and not isinstance(x, type):
